@@ -53,13 +53,25 @@ static void OneComplOp(TempResult* pErg, TempResult* pLVal, TempResult* pRVal) {
     PromoteLValFlags();
 }
 
+/* a shift count outside 0..LARGEBITS-1 is undefined in C (the x86 uses the count
+   modulo 64: 1<<64 gave 1): all bits are shifted out */
+
 static void ShLeftOp(TempResult* pErg, TempResult* pLVal, TempResult* pRVal) {
-    as_tempres_set_int(pErg, pLVal->Contents.Int << pRVal->Contents.Int);
+    if ((pRVal->Contents.Int < 0) || (pRVal->Contents.Int >= LARGEBITS)) {
+        as_tempres_set_int(pErg, 0);
+    } else {
+        as_tempres_set_int(
+                pErg, (LargeInt)((LargeWord)pLVal->Contents.Int << pRVal->Contents.Int));
+    }
     PromoteLRValFlags();
 }
 
 static void ShRightOp(TempResult* pErg, TempResult* pLVal, TempResult* pRVal) {
-    as_tempres_set_int(pErg, pLVal->Contents.Int >> pRVal->Contents.Int);
+    if ((pRVal->Contents.Int < 0) || (pRVal->Contents.Int >= LARGEBITS)) {
+        as_tempres_set_int(pErg, (pLVal->Contents.Int < 0) ? -1 : 0);
+    } else {
+        as_tempres_set_int(pErg, pLVal->Contents.Int >> pRVal->Contents.Int);
+    }
     PromoteLRValFlags();
 }
 
